@@ -206,8 +206,13 @@ def _deserialize_exception(data: Any) -> Exception:
     exc_message = data["exception_message"]
     try:
         exc_cls = import_module_from_qualified_name(data["exception_type"])
-        return exc_cls(exc_message)
     except (ImportError, AttributeError, ValueError):
+        return Exception(exc_message)
+    try:
+        return exc_cls(exc_message)
+    except Exception:
+        # the type's constructor does not take a single message
+        # (e.g. UnicodeDecodeError): keep the message rather than fail to load
         return Exception(exc_message)
 
 
